@@ -83,3 +83,8 @@ package ipnisync
 //@   requires ctx != nil
 //@   ensures str(cidSchemaType) == str(CidSchemaAdvertisement) || str(cidSchemaType) == str(CidSchemaEntryChunk) || str(cidSchemaType) == str("") ==> result1 == nil
 //@   ensures result0 != nil
+
+// The constructor always returns a client (used by dagsync.NewSubscriber: C15).
+//@ func NewSync
+//@   property C15
+//@   ensures result != nil && isfresh(result)
